@@ -12,6 +12,7 @@ package c06
 
 import (
 	"bytes"
+	"errors"
 	"context"
 	"fmt"
 	"math/rand"
@@ -487,10 +488,11 @@ func runTCP(args []string, flavour string) []string {
 	} else {
 		_ = client.CloseWrite()
 	}
-	_ = client.SetReadDeadline(time.Now().Add(5 * time.Second))
+	_ = client.SetReadDeadline(time.Now().Add(7 * time.Second)) // longer than the handler's own 5 s deadline
 	var reply []byte
 	buf := make([]byte, 65536)
 	reads := 0
+	timedOut := false
 	for {
 		n, err := client.Read(buf)
 		if n > 0 {
@@ -498,10 +500,19 @@ func runTCP(args []string, flavour string) []string {
 			reads++
 		}
 		if err != nil {
+			// the handler must hang up on the peer whatever it received: a read that ends by OUR deadline instead of EOF /
+			// reset means the accepted connection was left open (a descriptor leak per such peer)
+			var ne net.Error
+			if errors.As(err, &ne) && ne.Timeout() {
+				timedOut = true
+			}
 			break
 		}
 	}
 	res := <-done
+	if res == "" && timedOut {
+		res = "not-closed"
+	}
 	after := reputil.JoinDump(w.Dump())
 	state := "same"
 	if before != after {
